@@ -181,12 +181,56 @@ def _round1_guard_ok(ctx, ri, test_node):
     return True, ''
 
 
+def _undeclared_never_elected(ctx, R):
+    """Minneapolis: an undeclared write-in is never elected.  The rule defeats the write-ins in its second round; an elect site that can
+    run before that (reachable from the head of the main loop without passing E.newRound()) must filter them out itself
+    (`not c.isUndeclared` on every derivation of the receiver)."""
+    d = deriv(ctx)
+    for ri in rules(ctx):
+        f, cfg = ri.count, ri.cfg
+        if not any(isinstance(x, ast.Attribute) and x.attr == 'isUndeclared' for x in f.all_nodes()):
+            continue
+        loop = ri.main_loop()
+        head = cfg.of_stmt[loop]
+        rounds = {x for x in cfg.nodes_in(loop) if any(ctx.canon(c.func, f) == 'E.newRound' for c in calls_at(x))}
+        need(rounds, 'R02: %s handles undeclared candidates but its main loop has no E.newRound()' % ri.cls.qualname)
+        early = cfg.reach([head], avoid=rounds, edge_ok=lambda a, b, lab: not (a is head and lab is False))
+        for call in attr_calls(f, ('elect',)):
+            cn = cfg_node_of(ctx, f, call)
+            if cn not in early or cn not in cfg.nodes_in(loop):
+                continue
+            srcs = d.sources(call.func.value, f)
+            # flow-sensitive refinement: `for c in NAME` - only the definitions of NAME that reach this loop count
+            lp, _c = d.for_binding(call.func.value) if isinstance(call.func.value, ast.Name) else (None, None)
+            if lp is not None and isinstance(lp.iter, ast.Name):
+                from ..cfg import reaching_defs
+                rds = reaching_defs(cfg, lp.iter.id, cfg.of_stmt[lp])
+                if rds and all(r_ is not cfg.entry and isinstance(r_.ast, ast.Assign) for r_ in rds):
+                    srcs = []
+                    for r_ in rds:
+                        srcs += d.sources(r_.ast.value, f)
+
+            def excl(s_):
+                for (c, v, cf, neg) in s_.filters:
+                    for sub in ast.walk(c):
+                        if isinstance(sub, ast.UnaryOp) and isinstance(sub.op, ast.Not) and isinstance(sub.operand, ast.Attribute) \
+                                and sub.operand.attr == 'isUndeclared' and not neg:
+                            return True
+                return False
+            ctx.check(bool(srcs) and all(excl(s_) for s_ in srcs), R, call, f,
+                      'rule %s never elects an undeclared write-in: an election that can precede their exclusion filters them out' % ri.short,
+                      'every derivation of `%s` carries `not c.isUndeclared`' % unparse(call.func.value),
+                      '`%s` can run in the first round, before the write-ins are excluded, and its receiver is not filtered on isUndeclared: an '
+                      'undeclared write-in holding the threshold is declared elected' % stmt_text(ctx.repo.enclosing_stmt(call)))
+
+
 def r02_elect_sites(ctx):
     """every Candidate.elect call is justified by a quota test on the receiver, a seats-remaining
     guard, or a pending (already elected) receiver"""
     R = 'R02'
     d = deriv(ctx)
     n = 0
+    _undeclared_never_elected(ctx, R)
     for ri in rules(ctx):
         for f in all_funcs_of(ri.count):
             qp = _quota_pred(ctx, f)
